@@ -98,6 +98,16 @@ def c17(ctx):
                  ("dyn_ptr", base + "fn main() { let r = static_reference!(Foo, Foo(7)); let d = to_dyn!(Val, r.clone()); r.borrow_mut().0 = 9; assert_eq!(d.borrow().get(), 9); }\n")]
         if "alloc" in feats:
             progs.append(("dyn_rc", base + "fn main() { let r = rc_ref_cell_reference(Foo(7)); let d = to_dyn!(Val, r.clone()); r.borrow_mut().0 = 9; assert_eq!(d.borrow().get(), 9); }\n"))
+            # the converted handle must keep the target alive on its own (the payload records its drop; nothing freed is ever read)
+            keep = ("use rrtk::*;\nuse core::sync::atomic::{AtomicBool, Ordering};\nstatic DROPPED: AtomicBool = AtomicBool::new(false);\n"
+                    "trait Val { fn get(&self) -> i32; }\nstruct Foo(i32);\nimpl Val for Foo { fn get(&self) -> i32 { self.0 } }\n"
+                    "impl Drop for Foo { fn drop(&mut self) { DROPPED.store(true, Ordering::SeqCst); } }\n"
+                    "fn main() { let r = rc_ref_cell_reference(Foo(7)); let d = to_dyn!(Val, r.clone()); drop(r);\n"
+                    "  assert!(!DROPPED.load(Ordering::SeqCst), \"target dropped while the converted Reference is alive\");\n"
+                    "  let d2 = to_dyn!(Val, rc_ref_cell_reference(Foo(8)));\n"
+                    "  assert!(!DROPPED.load(Ordering::SeqCst), \"target of a converted temporary dropped at once\");\n"
+                    "  assert_eq!(d.borrow().get() + d2.borrow().get(), 15); }\n")
+            progs.append(("dyn_rc_keeps_alive", keep))
         res = p_lifetimes.compile_programs(ctx, progs, features=feats, tag=tag, run=True)
         ctx.evaluations += len(res)
         if not res["baseline"][0]:
